@@ -80,6 +80,13 @@ impl Schema {
         }
         s
     }
+    /// the object `parent` declares field `fname` with a type that differs from (= is narrower than) the type an interface it
+    /// implements declares for it (covariant narrowing: non-null, a concrete object / sub-interface / union member, non-null items)
+    pub fn is_narrowed(&self, parent: &str, fname: &str) -> bool {
+        let Some(TypeDef { kind: Kind::Object { implements, fields }, .. }) = self.get(parent) else { return false };
+        let Some(f) = fields.iter().find(|f| f.name == fname) else { return false };
+        implements.iter().any(|i| self.fields_of(i).iter().any(|g| g.name == fname && g.ty != f.ty))
+    }
     pub fn composites(&self) -> Vec<String> { self.types.iter().filter(|t| self.is_composite(&t.name)).map(|t| t.name.clone()).collect() }
     /// composite types whose possible types intersect those of `parent`
     pub fn applicable(&self, parent: &str) -> Vec<String> {
@@ -276,6 +283,49 @@ pub fn gen_schema(rng: &mut Rng, cfg: &SchemaCfg) -> Schema {
         for o in &obj_names { if rng.chance(1, 2) { members.push(o.clone()); } }
         if members.is_empty() { members.push(obj_names[0].clone()); }
         types.push(TypeDef { name: name.clone(), kind: Kind::Union { members }, desc: desc(rng) });
+    }
+    // covariant narrowing: about a quarter of the fields an object inherits from an interface get a narrower type
+    // (non-null where the interface is nullable; an implementing object / sub-interface / union member where the interface
+    // field has an interface or union type; non-null list items). The interface keeps the pool type, so a field name still
+    // determines its type everywhere EXCEPT on such objects; gen_doc gives a narrowed field a fresh alias whenever it selects
+    // it on the object, so same-key selections keep one response shape (documents stay spec-valid).
+    {
+        let snapshot = types.clone();
+        let impls_of = |n: &str| -> Vec<String> { match snapshot.iter().find(|t| t.name == n).map(|t| &t.kind) {
+            Some(Kind::Object { implements, .. }) | Some(Kind::Interface { implements, .. }) => implements.clone(), _ => vec![] } };
+        for t in types.iter_mut() {
+            let Kind::Object { implements, fields } = &mut t.kind else { continue };
+            if implements.is_empty() { continue; }
+            for f in fields.iter_mut() {
+                let inherited = implements.iter().any(|i| iface_fields.get(i).map_or(false, |fs| fs.iter().any(|g| g.name == f.name)));
+                if !inherited || !rng.chance(1, 4) { continue; }
+                let named = f.ty.named().to_string();
+                // candidates for a narrower named type
+                let mut cands: Vec<String> = vec![];
+                match snapshot.iter().find(|x| x.name == named).map(|x| &x.kind) {
+                    Some(Kind::Interface { .. }) => { for x in &snapshot { if matches!(x.kind, Kind::Object { .. } | Kind::Interface { .. }) && impls_of(&x.name).contains(&named) { cands.push(x.name.clone()); } } }
+                    Some(Kind::Union { members }) => cands = members.clone(),
+                    _ => {}
+                }
+                fn has_nullable_item(t: &Ty) -> bool { match t { Ty::Named(_) => false, Ty::NonNull(i) => has_nullable_item(i), Ty::List(i) => !i.is_nonnull() || has_nullable_item(i) } }
+                fn nonnull_items(t: &Ty) -> Ty { match t { Ty::Named(_) => t.clone(), Ty::NonNull(i) => Ty::NonNull(Box::new(nonnull_items(i))),
+                    Ty::List(i) => { let j = nonnull_items(i); Ty::List(Box::new(if j.is_nonnull() { j } else { Ty::NonNull(Box::new(j)) })) } } }
+                fn rename(t: &Ty, to: &str) -> Ty { match t { Ty::Named(_) => Ty::Named(to.to_string()), Ty::NonNull(i) => Ty::NonNull(Box::new(rename(i, to))), Ty::List(i) => Ty::List(Box::new(rename(i, to))) } }
+                let mut kinds: Vec<u8> = vec![];
+                if !f.ty.is_nonnull() { kinds.push(0); }
+                if !cands.is_empty() { kinds.push(1); kinds.push(1); }
+                if has_nullable_item(&f.ty) { kinds.push(2); }
+                if kinds.is_empty() { continue; }
+                let n_steps = if rng.chance(1, 3) { 2 } else { 1 };
+                for _ in 0..n_steps {
+                    match *rng.pick(&kinds) {
+                        0 => { if !f.ty.is_nonnull() { f.ty = Ty::NonNull(Box::new(f.ty.clone())); } }
+                        1 => { let to = rng.pick(&cands).clone(); f.ty = rename(&f.ty, &to); }
+                        _ => { f.ty = nonnull_items(&f.ty); }
+                    }
+                }
+            }
+        }
     }
     // roots
     let explicit = rng.chance(1, 2);
@@ -551,7 +601,8 @@ impl<'a> G<'a> {
                 let leafs: Vec<&Field> = fields.iter().filter(|f| self.s.is_leaf(f.ty.named())).collect();
                 let f = if deep && !leafs.is_empty() { (*rng.pick(&leafs)).clone() } else { rng.pick(&fields).clone() };
                 if deep && self.s.is_composite(f.ty.named()) { continue; }
-                let sel = self.field_sel(rng, &f, depth, false);
+                let narrowed = self.s.is_narrowed(parent, &f.name);
+                let sel = self.field_sel(rng, &f, depth, narrowed);
                 // deliberate duplicate of a composite field without arguments: sub-selections must merge
                 if self.cfg.duplicates && rng.chance(1, 6) {
                     if let Sel::Field { alias: None, name, args, sub: Some(_), .. } = &sel {
